@@ -161,6 +161,7 @@ type Config struct {
 // Broker is a running scripted broker.
 type Broker struct {
 	cfg  Config
+	vmu  sync.RWMutex // guards cfg.Versions
 	ln   net.Listener
 	host string
 	port int32
@@ -623,10 +624,26 @@ func RespondAt(h *Header, resp kmsg.Response, version int16) []byte {
 	return FrameBody(h.Corr, FlexHeader(h.Key, h.Version), resp.AppendTo(nil))
 }
 
+// versions returns the current advertisement (SetVersions may replace it).
+func (b *Broker) versions() Versions {
+	b.vmu.RLock()
+	defer b.vmu.RUnlock()
+	return b.cfg.Versions
+}
+
+// SetVersions replaces what the broker advertises from now on (a broker that
+// was restarted with another version). Existing connections are not touched;
+// call KillConns to make clients reconnect and ask again.
+func (b *Broker) SetVersions(v Versions) {
+	b.vmu.Lock()
+	b.cfg.Versions = v
+	b.vmu.Unlock()
+}
+
 // Advertised returns the ranges the broker advertises.
 func (b *Broker) Advertised() map[int16]Range {
-	if b.cfg.Versions.Ranges != nil {
-		return b.cfg.Versions.Ranges
+	if b.versions().Ranges != nil {
+		return b.versions().Ranges
 	}
 	m := map[int16]Range{}
 	for k := int16(0); k <= kmsg.MaxKey; k++ {
@@ -638,8 +655,8 @@ func (b *Broker) Advertised() map[int16]Range {
 }
 
 func (b *Broker) apiVersionsMax() int16 {
-	if b.cfg.Versions.ApiVersionsMax != nil {
-		return *b.cfg.Versions.ApiVersionsMax
+	if b.versions().ApiVersionsMax != nil {
+		return *b.versions().ApiVersionsMax
 	}
 	if r, ok := b.Advertised()[18]; ok {
 		return r.Max
@@ -675,7 +692,7 @@ func (b *Broker) apiKeys(only18 bool) []kmsg.ApiVersionsResponseApiKey {
 func (b *Broker) ApiVersions(req *Request) Reply {
 	resp := kmsg.NewPtrApiVersionsResponse()
 	if req.Version > b.apiVersionsMax() {
-		switch b.cfg.Versions.OnUnsupported {
+		switch b.versions().OnUnsupported {
 		case ResetConn:
 			return Reply{}.Reset()
 		case KIP511:
